@@ -185,8 +185,9 @@ class EvalMixin:
         key = path + ":" + name
         if isinstance(e, ast.Constant):
             return self.const(e.value)
-        if isinstance(e, (ast.Tuple, ast.List)) and all(isinstance(x, (ast.Constant, ast.Name)) for x in e.elts):
-            items = [self.const(x.value) if isinstance(x, ast.Constant) else self.module_global(st, path, x.id) for x in e.elts]
+        if isinstance(e, (ast.Tuple, ast.List)) and all(isinstance(x, (ast.Constant, ast.Name, ast.Attribute)) for x in e.elts):
+            items = [self.const(x.value) if isinstance(x, ast.Constant) else self.module_global(st, path, x.id) if isinstance(x, ast.Name)
+                     else self.global_init(st, path, name + "$%d" % i, x) for i, x in enumerate(e.elts)]
             return SV("tuple", None, x=items)
         if isinstance(e, ast.Set) and all(isinstance(x, (ast.Constant, ast.Name)) for x in e.elts):
             items = [self.const(x.value) if isinstance(x, ast.Constant) else self.module_global(st, path, x.id) for x in e.elts]
